@@ -1,4 +1,7 @@
+#[cfg(not(goml_verif))]
 use std::collections::HashSet;
+#[cfg(goml_verif)]
+use crate::verif_hash::HashSet;
 
 use crate::{
     env::{GlobalTypeEnv, PackageTypeEnv},
